@@ -28,6 +28,7 @@ enum Probe
 	P_FRONT2D,
 	P_FRONT3D,
 	P_FRONT_SPH,
+	P_NESTED,
 	P_VEGAS_MDS_NEG,
 	P_MISER_FLAT,
 	P_NARROW_UNDERFLOW,
@@ -43,7 +44,7 @@ enum Probe
 	P_BUDGET_1E6,
 	P_NPROBES
 };
-const char* PROBE_NAMES[] = {"integrator_calls", "integrand_evaluations", "method_plain_mc", "method_vegas", "method_miser", "frontend_integrate_2d", "frontend_integrate_3d", "frontend_integrate_3d_spherical", "vegas_stratification_off_branch(2ng>=50)", "miser_call_with_mostly_flat_zero_integrand", "narrow_peak_underflows_to_zero", "history_vs_pristine_process_comparisons", "repeat_inside_history_comparisons", "accuracy_checks_on_regular_integrands", "accuracy_escalations", "ensemble_bias_tests", "constant_integrand_checks", "fault_entropy_edge_seed(0,1,2^32-1,repeat)", "history_changes_dimension_before_compared_call", "budget_1e5_or_more", "budget_1e6"};
+const char* PROBE_NAMES[] = {"integrator_calls", "integrand_evaluations", "method_plain_mc", "method_vegas", "method_miser", "frontend_integrate_2d", "frontend_integrate_3d", "frontend_integrate_3d_spherical", "integrand_runs_a_nested_integration", "vegas_stratification_off_branch(2ng>=50)", "miser_call_with_mostly_flat_zero_integrand", "narrow_peak_underflows_to_zero", "history_vs_pristine_process_comparisons", "repeat_inside_history_comparisons", "accuracy_checks_on_regular_integrands", "accuracy_escalations", "ensemble_bias_tests", "constant_integrand_checks", "fault_entropy_edge_seed(0,1,2^32-1,repeat)", "history_changes_dimension_before_compared_call", "budget_1e5_or_more", "budget_1e6"};
 
 enum Metric
 {
@@ -217,7 +218,7 @@ struct Integrand
 		for(int j = 0; j < c.ndim; j++)
 		{
 			Axis a;
-			a.family = (c.family == 5 && j > 0) ? 0 : c.family;
+			a.family = (c.family == 5 && j > 0) ? 0 : c.family == 6 ? 0 : c.family;
 			a.lo	 = c.lo[j];
 			a.w		 = c.hi[j] - c.lo[j];
 			a.p0 = c.par[4 * j], a.p1 = c.par[4 * j + 1], a.p2 = c.par[4 * j + 2], a.p3 = c.par[4 * j + 3];
@@ -246,6 +247,8 @@ struct Integrand
 		else
 			sup_dev = std::fabs(scale) * pabs + std::fabs((double) mean);
 		smooth = c.family == 1 || c.family == 2 || c.family == 4;
+		if(c.family == 6)
+			nested_method = (c.par[0] != 0.0) ? 1 : 0;
 		if(c.frontend == 4)
 		{
 			// spherical front end: the user function is the constant `scale`, the library multiplies by r^2 itself;
@@ -261,9 +264,26 @@ struct Integrand
 			smooth			 = true;
 		}
 	}
+	// family 6: the integrand is itself an integral - every evaluation runs an inner Monte Carlo integration (plain or Miser)
+	// of the constant 1 over its own small region and returns scale * inner / inner volume, i.e. the constant `scale`
+	int nested_method = -1;
+	mutable uint64_t inner_calls = 0, inner_bad = 0;
 	double operator()(const double* x) const
 	{
 		double f = scale;
+		if(nested_method >= 0)
+		{
+			std::vector<double> reg = {2.0, -1.0, 2.5, 3.0};
+			double vol				= 0.5 * 4.0;
+			std::function<double(std::vector<double>&, const double)> inner = [&](std::vector<double>& y, const double) {
+				if(y.size() < 2 || !(y[0] >= 2.0 && y[0] <= 2.5 && y[1] >= -1.0 && y[1] <= 3.0))
+					inner_bad++;
+				return 1.0;
+			};
+			inner_calls++;
+			double in = libphysica::Integrate_MC(inner, reg, 64 + (int) (inner_calls % 3) * 40, nested_method == 0 ? "Monte-Carlo" : "Miser");
+			return f * (in / vol);
+		}
 		for(size_t j = 0; j < ax.size(); j++)
 			f *= ax[j].g(x[j]);
 		return f;
@@ -280,6 +300,7 @@ struct CallResult
 	int32_t bad_size;
 	int32_t finished;
 	uint64_t entropy_draws;
+	uint64_t inner_bad;
 };
 
 // Executes one integrator call with the entropy seam set to `seed`; never throws.
@@ -329,7 +350,7 @@ CallResult run_call(const CallSpec& c, uint32_t seed)
 			double p[2] = {x, y};
 			return observe(p, 2);
 		};
-		r.value = libphysica::Integrate_2D(f2, c.lo[0], c.hi[0], c.lo[1], c.hi[1], method, c.ncalls);
+		r.value = libphysica::Integrate_2D(f2, c.lo[0], c.hi[0], c.lo[1], c.hi[1], method, c.ncalls == 30000 ? 0 : c.ncalls);	// 0 = the documented default of 30000 calls
 	}
 	else if(c.frontend == 3)
 	{
@@ -337,7 +358,7 @@ CallResult run_call(const CallSpec& c, uint32_t seed)
 			double p[3] = {x, y, z};
 			return observe(p, 3);
 		};
-		r.value = libphysica::Integrate_3D(f3, c.lo[0], c.hi[0], c.lo[1], c.hi[1], c.lo[2], c.hi[2], method, c.ncalls);
+		r.value = libphysica::Integrate_3D(f3, c.lo[0], c.hi[0], c.lo[1], c.hi[1], c.lo[2], c.hi[2], method, c.ncalls == 30000 ? 0 : c.ncalls);
 	}
 	else if(c.frontend == 4)
 	{
@@ -387,6 +408,7 @@ CallResult run_call(const CallSpec& c, uint32_t seed)
 		r.value = libphysica::Integrate_MC(f, region, c.ncalls, method);
 	}
 	r.entropy_draws = entropy_draws_total() - before;
+	r.inner_bad		= F.inner_bad;
 	r.finished		= 1;
 	return r;
 }
@@ -455,6 +477,8 @@ struct Exec
 			ctx.violate(c.frontend == 4 ? "C14:containment:spherical-frontend" : c.frontend ? "C14:containment:frontend-axis" : "C14:containment", fmt("sample coordinate %d = %.17g lies outside its axis limits [%.17g,%.17g]; %s", r.bad_axis, r.bad_value, c.lo[r.bad_axis], c.hi[r.bad_axis], describe(c).c_str()));
 		}
 		// 2. entropy: exactly one device draw per call, nothing else
+		if(r.inner_bad)
+			ctx.violate("C14:containment:nested", fmt("%llu samples of the integrations nested inside the integrand left their own region [2,2.5]x[-1,3]; %s", (unsigned long long) r.inner_bad, describe(c).c_str()));
 		// the random seed of a call is what std::random_device delivers during it (any number of draws); clocks, rand() etc. are not
 		if(r.entropy_draws < 1 || entropy_other_sources())
 			ctx.violate("C14:entropy-use", fmt("call drew %llu values from std::random_device and %llu from clocks/rand (expected >=1 and 0); %s", (unsigned long long) r.entropy_draws, (unsigned long long) entropy_other_sources(), describe(c).c_str()));
@@ -465,7 +489,9 @@ struct Exec
 			ctx.violate("C14:budget", fmt("%llu integrand evaluations for a budget of %d; %s", (unsigned long long) r.evals, c.ncalls, describe(c).c_str()));
 		Integrand F(c);
 		// 4. constants are integrated exactly to rounding
-		if(c.family == 0 && c.frontend != 4)
+		if(c.family == 6)
+			ctx.probe(P_NESTED);
+		if((c.family == 0 || c.family == 6) && c.frontend != 4)
 		{
 			ctx.probe(P_CONST_CHECKED);
 			double ex  = (double) F.exact;
@@ -657,6 +683,14 @@ struct Gen
 		c.ncalls = (int) r.pick(thorough ? BT : BQ);
 		if(!thorough && r.chance(0.02))
 			c.ncalls = 1000000;
+		if(r.chance(0.2))
+		{
+			// budgets that are not round numbers: next to powers of two (block sizes of an accumulation scheme), or anything
+			int k	 = (int) r.irange(10, thorough ? 19 : 17);
+			c.ncalls = r.chance(0.6) ? (1 << k) * (int) r.irange(1, 2) + (int) r.irange(-2, 40) : (int) r.logrange(1000, thorough ? 5e5 : 1.5e5);
+			if(c.ncalls < 1000)
+				c.ncalls = 1000;
+		}
 		if(c.ncalls >= 100000 && c.method == 1 && !thorough && r.chance(0.5))
 			c.ncalls = 30000;
 		c.family = (int) r.pick(std::vector<long long>{0, 0, 1, 1, 2, 2, 3, 3, 4, 4, 5});
@@ -705,9 +739,17 @@ struct Gen
 			c.lo = {r1, c1, p1};
 			c.hi = {r2, std::min(c2, 1.0), p2};
 		}
+		if(c.frontend != 4 && r.chance(0.05))
+		{
+			// iterated integral: the integrand runs its own (plain or Miser) integration; keep the outer budget small
+			c.family = 6;
+			c.ncalls = (int) r.pick(std::vector<long long>{1000, 1000, 2000, 3000});
+		}
 		for(int j = 0; j < c.ndim; j++)
 		{
 			double p0 = 0, p1 = 0, p2 = 0, p3 = 0;
+			if(c.family == 6 && j == 0)
+				p0 = r.chance(0.7) ? 1.0 : 0.0;	  // inner method: Miser or plain
 			switch(c.family)
 			{
 				case 1: p0 = r.range(-3, 3); break;
